@@ -725,6 +725,11 @@ func (g *FuncGen) havoc(st *State, ws *writeSet, why string) {
 }
 
 func (g *FuncGen) loopSpec() (*LoopSpec, int) {
+	if len(g.inlineStack) > 0 {
+		// loops of an inlined callee carry no invariant and do not take part in the caller's loop numbering
+		g.inlineOrd++
+		return nil, 1000 + g.inlineOrd
+	}
 	ord := g.loopOrd
 	g.loopOrd++
 	if g.F.Spec != nil {
